@@ -30,6 +30,8 @@ type c12Writer struct {
 	writing bool
 	overlap bool
 	preempt bool
+	sparse  bool // scheduling points only at boundary writes and flushes (not at every write)
+	gate    bool // writes are schedule gates: the native replay reproduces their order relative to payload production
 }
 
 func (w *c12Writer) Header() http.Header { return w.hdr }
@@ -43,7 +45,9 @@ func (w *c12Writer) Write(p []byte) (int, error) {
 		w.overlap = true
 	}
 	w.writing = true
-	w.pause()
+	if !w.sparse || bytes.HasPrefix(p, []byte("--")) {
+		w.pause()
+	}
 	w.pending = append(w.pending, p...)
 	w.writing = false
 	return len(p), nil
@@ -65,6 +69,9 @@ func (w *c12Writer) Flush() {
 // call blocks for longer than the keep-alive interval, so that ticks land
 // inside writes and flushes.
 func (w *c12Writer) pause() {
+	if w.gate {
+		zzsym.Gate("write")
+	}
 	if w.preempt {
 		zzsym.Preempt()
 		if !zzsym.Symbolic() {
@@ -181,6 +188,7 @@ type c12Exec struct {
 	reject bool
 	cancelAt int                // >0: the request context is cancelled while the cancelAt-th payload is being produced
 	cancel   context.CancelFunc // (the payload is still returned: the resolvers had finished)
+	gate   bool // payload production is a schedule gate (see c12Writer.gate)
 	yield  bool // producing a payload takes time: any other goroutine (a ticker's) may run before each one
 	inc    bool // incremental delivery shape: initial payload {"i":0}, then labelled payloads, hasNext true on all but the last
 	spaced bool // payload data carries insignificant white space incl. a line break (as graphql.MarshalAny / MarshalMap emit through json.Encoder)
@@ -196,6 +204,9 @@ func (e *c12Exec) CreateOperationContext(ctx context.Context, params *graphql.Ra
 func (e *c12Exec) DispatchOperation(ctx context.Context, rc *graphql.OperationContext) (graphql.ResponseHandler, context.Context) {
 	k := 0
 	return func(ctx context.Context) *graphql.Response {
+		if e.gate {
+			zzsym.Gate("produce")
+		}
 		if e.yield {
 			zzsym.Preempt()
 		}
@@ -207,7 +218,13 @@ func (e *c12Exec) DispatchOperation(ctx context.Context, rc *graphql.OperationCo
 			e.cancel()
 		}
 		if !zzsym.Symbolic() {
-			time.Sleep(3 * time.Millisecond) // natively: give the 1ms keep-alive ticker a chance to fire between payloads
+			// natively: give the 1ms tickers a chance to fire between payloads; incremental payloads
+			// arrive while the (slow) client is still being written to
+			if e.inc {
+				zzsym.Jitter(14000) // 0..14 ms: payloads land before, inside and after the flushes of a slow client
+			} else {
+				time.Sleep(3 * time.Millisecond)
+			}
 		}
 		if e.inc {
 			if k == 1 {
